@@ -1242,8 +1242,13 @@ def c19(tier, seed):
                timeout=400 if q else 1800, **common)
     # deeper books on a coarser grid (levels 0..9 populated differently on the two sides), market orders, modifies
     py_env_gen(ck, "py_env_layout_deep", mode="env", seeds=2 if q else 4, Ticks=(2,), StepSize=6, Ops=["new", "modify", "step"], Kinds=["L"] if q else ["L", "M"],
-               Prices=[10, 14, 28], Vols=[2] if q else [2, 5], Sides=["B", "A"], ModPrices=[-1, 12], ModVolsAbs=[-1, 1], MaxSubmits=3, MaxBatch=3,
+               Prices=[10, 14, 28], Vols=[2] if q else [2, 5], Sides=["B", "A"], ModPrices=[-1, 12] if q else [-1, 10, 12, 14], ModVolsAbs=[-1, 1], MaxSubmits=3, MaxBatch=3,
                MaxSteps=2 if q else 3, MaxOrders=3, need=("asymmetric", "has_modify", "has_trade"), timeout=400 if q else 1800)
+    # re-pricing onto the other side's touch with two volumes: a re-priced order that is only partly filled rests with what is left,
+    # and the cells and series of its side show that
+    py_env_gen(ck, "py_env_layout_requeue", mode="env", seeds=2, Ticks=(2,), StepSize=6, Ops=["new", "modify", "step"], Kinds=["L"], Prices=[10, 14], Vols=[2, 5],
+               Sides=["B", "A"], ModPrices=[10, 14], ModVolsAbs=[-1], MaxSubmits=3, MaxBatch=3, MaxSteps=2, MaxOrders=2,
+               need=("asymmetric", "has_modify", "has_trade"), timeout=400 if q else 1800)
     # the lower end of the price range: every resting bid at the limit price 0, which is also what an empty bid side shows as its
     # touch price - the per-level cells and series must still hold that level's volume and order count (both environments)
     low = dict(common, Prices=[0, 2], MaxSubmits=3, MaxOrders=3)
